@@ -91,6 +91,7 @@ class Exec:
         self.method_models = {}
         self.overrides = {}
         self.encoded = {}          # (file, line, name) -> count
+        self.type_hint = None
         self.incomplete_reasons = {}
         from . import lib
         lib.install(self)
@@ -562,7 +563,9 @@ class Exec:
                     continue
                 k = st['k']
                 if k == 'let':
+                    self.type_hint = st['pat'].get('ty') if st['pat']['k'] == 'typed' else None
                     v = self.eval(st['init'], env) if st['init'] else None
+                    self.type_hint = None
                     if st.get('else') is not None:
                         env.append({})
                         ok = self.match(st['pat'], v, env)
@@ -727,7 +730,7 @@ class Exec:
                 return self.global_cell(name).v
             if (en, name) in self.p.methods:
                 return ('methodref', en, name)
-            if en in ('Ordering', 'ErrorKind', 'RecvTimeoutError', 'TryRecvError') or s == 'rkyv::Infallible':
+            if en in ('Ordering', 'ErrorKind', 'RecvTimeoutError', 'TryRecvError') or s in ('rkyv::Infallible', 'SystemTime::UNIX_EPOCH', 'libc::O_SYNC'):
                 return ConstV(s)
             if s in self.fn_models:
                 return ('ctor', lambda *a: self.fn_models[s](self, list(a), e))
